@@ -76,8 +76,31 @@ type Resolution struct {
 
 // ParseTag splits "v,n1=a b,n2" into value and arguments (names normalised to a lower-case
 // first letter). The generated wire/func tags contain no brackets.
+// splitTop splits at separators that are not inside a bracketed group ([..], {..}, (..)): "bracketed
+// groups are never split" (C19's statement).
+func splitTop(s string, sep byte) []string {
+	var out []string
+	depth, start := 0, 0
+	for i := 0; i < len(s); i++ {
+		switch s[i] {
+		case '[', '{', '(':
+			depth++
+		case ']', '}', ')':
+			if depth > 0 {
+				depth--
+			}
+		case sep:
+			if depth == 0 {
+				out = append(out, s[start:i])
+				start = i + 1
+			}
+		}
+	}
+	return append(out, s[start:])
+}
+
 func ParseTag(raw string) (val string, args map[string][]string) {
-	parts := strings.Split(raw, ",")
+	parts := splitTop(raw, ',')
 	val = parts[0]
 	if strings.HasPrefix(val, "${nosuchkey.") && strings.HasSuffix(val, ":}") {
 		val = "" // placeholder with an unconfigured key and an empty default (generated on purpose)
@@ -96,7 +119,7 @@ func ParseTag(raw string) (val string, args map[string][]string) {
 			args[name] = []string{""}
 			continue
 		}
-		args[name] = strings.Split(rest, " ")
+		args[name] = splitTop(rest, ' ')
 	}
 	return
 }
